@@ -311,7 +311,7 @@ func checkValues(r *Run, id int, gf *genFileT, res fileRes, n int, desc map[stri
 }
 
 func runC07(r *Run) {
-	nfiles := r.N(60, 1200)
+	nfiles := r.N(60, 500)
 	for i := 0; i < nfiles; i++ {
 		gf := genFile(r, 8)
 		total := len(gf.wants)
@@ -552,7 +552,7 @@ func containerWithMeta(c *Container, meta map[string][]byte) []byte {
 
 // C08: every cut position of every generated file.
 func runC08(r *Run) {
-	nfiles := r.N(25, 400)
+	nfiles := r.N(25, 200)
 	for i := 0; i < nfiles; i++ {
 		isHuge := i%12 == 11
 		if isHuge {
